@@ -704,11 +704,11 @@ func (vc *FnVC) applyContract(fc *FuncContract, sig *types.Signature, args []Val
 			continue
 		}
 		t := vc.trBool(cl.E, env)
-		vc.oblige("call-pre", fmt.Sprintf("%s/%d", label, i), t, vc.fnTags(), cl.Src)
+		vc.oblige("call-pre", fmt.Sprintf("%s/%d", label, i), t, vc.callPreTags(), cl.Src)
 	}
 	for _, cl := range fc.PanicsIf {
 		t := vc.trBool(cl.E, env)
-		vc.oblige("call-pre", label+"/no-panic", not(t), vc.fnTags(), "callee panics if "+cl.Src)
+		vc.oblige("call-pre", label+"/no-panic", not(t), vc.callPreTags(), "callee panics if "+cl.Src)
 	}
 	pre := st.clone()
 	// havoc
@@ -1418,4 +1418,16 @@ func staticClosure(v ssa.Value) *ssa.Function {
 		}
 	}
 	return nil
+}
+
+// callPreTags: a violated callee pre-condition (or panic condition) is both a functional and a
+// safety matter: the obligation belongs to the function's properties and to its safety properties.
+func (vc *FnVC) callPreTags() []string {
+	out := append([]string{}, vc.fnTags()...)
+	for _, t := range vc.safetyTags() {
+		if t != "-" && !hasTag(out, t) {
+			out = append(out, t)
+		}
+	}
+	return out
 }
